@@ -237,7 +237,9 @@ func (g *schemaGenerator) extractRefNames(t *schemas.Type) (string, string, erro
 func (g *schemaGenerator) generateDeclaredType(t *schemas.Type, scope nameScope) (codegen.Type, error) {
 	if decl, ok := g.output.declsBySchema[t]; ok {
 		if t.Dereferenced {
-			if decl.Name != scope.string() {
+			// The alias is a convenience name; it must not redeclare a name that is already taken
+			// (e.g. by a same-named definition of another schema file in this output).
+			if decl.Name != scope.string() && g.output.isUniqueTypeName(scope.string()) {
 				decl := &codegen.AliasType{
 					Alias: scope.string(),
 					Name:  decl.Name,
